@@ -143,24 +143,27 @@ def check(prop, tier, only_key=None):
         print(f'check {prop}: worker failed: {errs[0]["error"]}\n{errs[0]["tb"]}')
         return 2
     # ---- R-level: the repository's own declarations (tests, examples), structural rules only
+    incomplete = []
     repo_decls = 0
     if prop in props.REPO_PROPS:
         files, rinfo = build.repo_facts()
         if rinfo.get('rc'):
-            print(f'check {prop}: the repository workspace does not compile with the driver: {rinfo.get("tail", "")[-1500:]}')
-            return 2
-        with multiprocessing.Pool(min(16, max(1, len(files)))) as pool:
-            rres = pool.map(_work_repo, [(prop, f) for f in files])
-        repo_decls = sum(r.get('decls', 0) for r in rres)
-        results = list(results) + rres
+            # fail closed - but only after the corpus has had its say: a change that also breaks the repository's own
+            # (feature-gated) tests is reported through the corpus findings, not hidden behind "cannot decide"
+            incomplete.append(f'the repository workspace does not compile with the driver: {rinfo.get("tail", "")[-1500:]}')
+        else:
+            with multiprocessing.Pool(min(16, max(1, len(files)))) as pool:
+                rres = pool.map(_work_repo, [(prop, f) for f in files])
+            repo_decls = sum(r.get('decls', 0) for r in rres)
+            results = list(results) + rres
     # ---- T-level: the unit tests the macro generates (cfg(test) build of a dedicated corpus)
     if prop in props.T_PROPS:
         tcrates, tpaths, tinfo = build.test_facts(tier)
         if tinfo.get('rc') or not tpaths:
-            print(f'check {prop}: the generated-tests corpus does not compile in test mode: {tinfo.get("tail", "")[-1500:]}')
-            return 2
-        jobs = [(prop + '#T', cn, tpaths[cn], c['decls']) for cn, c in tcrates.items()]
-        results = list(results) + [_work(j) for j in jobs]
+            incomplete.append(f'the generated-tests corpus does not compile in test mode: {tinfo.get("tail", "")[-1500:]}')
+        else:
+            jobs = [(prop + '#T', cn, tpaths[cn], c['decls']) for cn, c in tcrates.items()]
+            results = list(results) + [_work(j) for j in jobs]
     # ---- W-level: compile-verdict witnesses
     wstats = {'witnesses': 0, 'pass_expected': 0, 'fail_expected': 0}
     wfind = []
@@ -279,6 +282,12 @@ def check(prop, tier, only_key=None):
             json.dump(ev, fh, indent=1, default=str)
     print(f'check {prop} [{tier}]: {obligations} obligations, {discharged} discharged, {len(undecided)} undecided, '
           f'{len(hit)} known findings, {len(new)} violations, {ev["wall_s"]}s')
+    if incomplete:
+        for m in incomplete:
+            print(f'check {prop}: part of the analysis could not be built: {m}')
+        if rc == 0:
+            print(f'check {prop}: cannot decide (no violation found in the part that was analysed, but the analysis is incomplete)')
+            return 2
     return rc
 
 
